@@ -39,7 +39,7 @@ CFG = {
                   "skipping; any |ws| >= ceil(len/64), i.e. surplus words allowed after the F1 repair), find_open_eq, enclose_eq; "
                   "select1_eq for NoSelect (None), WithSelect (sampling invariants, jump_to, scan_select) and WithCsPoppy at any "
                   "rate (sample bracket, core's binary-search partition_point, 9-bit offset walk; select_in_word = C02). "
-                  "Nothing of the property is left unproved at model level; side condition len < 2^31 for the operations that keep an i32 excess. "
+                  "Nothing of the property is left unproved at model level; side condition len < 2^31 for the operations that keep an i32 excess - shown necessary for 2^31 <= len < 2^32 by depth_defect_beyond_i32 and find_close_false_match_mechanism (finding F13, manual replay corpus/C04/finding-13-big.manual). "
                   "Tie: tables and constants regenerated each run, every constructor x select support x build variant "
                   "diffed against the compiled model, itself cross-checked against the linear-scan spec.",
     "level_note": "select1_eq inherits C02's bv_decide certificate axiom (Kernels.clear_lowest) through select_ctz_eq; no other theorem does. Trusts Lean kernel, the table/constant extractor, popcount semantics, the SSE4.1 "
@@ -58,7 +58,7 @@ CFG = {
                    "SuccinctlyVerif/Proof/BPSse2.lean", "SuccinctlyVerif/Proof/BPSse3.lean", "SuccinctlyVerif/Proof/BPSel1.lean",
                    "SuccinctlyVerif/Proof/BPSample.lean", "SuccinctlyVerif/Proof/BPPart.lean", "SuccinctlyVerif/Proof/BPSelWS.lean",
                    "SuccinctlyVerif/Proof/BPSelWS2.lean", "SuccinctlyVerif/Proof/BPSelCS.lean", "SuccinctlyVerif/Proof/BPSelCS2.lean",
-                   "SuccinctlyVerif/Proof/BPSelCS3.lean",
+                   "SuccinctlyVerif/Proof/BPSelCS3.lean", "SuccinctlyVerif/Proof/BPWrap.lean",
                    "SuccinctlyVerif/Model/BP.lean", "SuccinctlyVerif/Spec/BPNav.lean"],
     "required_theorems": ["SV.Props.C04.byte_tables_eq", "SV.Props.C04.rank1_eq", "SV.Props.C04.find_close_eq",
                           "SV.Props.C04.find_open_eq", "SV.Props.C04.enclose_eq", "SV.Props.C04.find_close_from_eq",
